@@ -1,6 +1,7 @@
 package enc
 
 import (
+	"context"
 	"fmt"
 	"reflect"
 	"sync"
@@ -8,7 +9,9 @@ import (
 	"time"
 
 	"github.com/hashicorp/eventlogger"
+	"github.com/hashicorp/eventlogger/filters/encrypt"
 
+	"verifharness/internal/cryp"
 	"verifharness/internal/rt"
 )
 
@@ -177,6 +180,28 @@ func TestC10(t *testing.T) {
 		if run.NeedSample() && sig != "" && len(pc.Leaves) > 4 {
 			run.Sample(map[string]any{"seed": seed, "config": cfg.String(), "shape": pc.Sig})
 		}
+	}
+	// every operation overridden to none: the event is forwarded unchanged whatever the payload implements -
+	// also a payload with per-event wrapper info (with or without an event id), with or without a wrapper on the
+	// filter. (Rotation payloads are left out: C09 wants them consumed, this clause wants them forwarded.)
+	nnone := run.N(300, 6000)
+	for i := 0; i < nnone && !run.Stop(); i++ {
+		cr := r.Fork()
+		f := &encrypt.Filter{FilterOperationOverrides: map[encrypt.DataClassification]encrypt.FilterOperation{
+			encrypt.PublicClassification: encrypt.NoOperation, encrypt.SensitiveClassification: encrypt.NoOperation, encrypt.SecretClassification: encrypt.NoOperation}}
+		withWrapper := cr.Bool()
+		if withWrapper {
+			f.Wrapper = cryp.NewWrapper(cr.Bytes(32), "k")
+		}
+		ip := &infoPayload{KPayload: genK(cr), id: rt.Pick(cr, []string{"ev-1", "ev-2", ""}), salt: optBytes(cr, "s"), info: optBytes(cr, "i")}
+		before := fmt.Sprintf("%#v", *ip)
+		ev := &eventlogger.Event{Type: "t", CreatedAt: created, Payload: ip}
+		out, err := f.Process(context.Background(), ev)
+		if err != nil || out != ev || fmt.Sprintf("%#v", *ip) != before {
+			run.Violation("shape:not-forwarded-unchanged", fmt.Sprintf("with every operation overridden to none an event whose payload carries per-event wrapper info (event id %q, wrapper on the filter: %v) must be forwarded unchanged; forwarded the same event: %v, err=%v", ip.id, withWrapper, out == ev, err),
+				map[string]any{"payload": before})
+		}
+		run.Eval(fmt.Sprintf("allnone-eventinfo|%v|%q", withWrapper, ip.id))
 	}
 	// root structs passed by value: input untouched, no shared memory with what is forwarded
 	nbv := run.N(3000, 60000)
